@@ -41,6 +41,11 @@ package dns
 //@   assert at "r1, e1 = os.Open(includePath)" gateos: zp.includeAllowed && zp.includeDepth < 7 [C07]
 //@   assert at "zp.sub = NewZoneParser(r1, neworigin, includePath)" depth: zp.includeDepth < 7 [C07]
 //@   exit sticky: old(zp.parseErr) != nil ==> ret0 == nil && !ret1 [C07]
+//@   stored at "zp.defttl = &ttlState{ttl, true}" dirttl: value != nil && value.ttl == ttl && value.isByDirective [C06]
+//@   assert at "zp.defttl = &ttlState{ttl, true}" dirttlval: ttl == callres("stringToTTL", 0) && callres("stringToTTL", 1) && callarg("stringToTTL", 0) == l.token [C06]
+//@   stored at "zp.origin = name" dirorigin: value == callres("toAbsoluteName", 0) && callres("toAbsoluteName", 1) && callarg("toAbsoluteName", 0) == l.token && callarg("toAbsoluteName", 1) == zp.origin [C06]
+//@   callsite "toAbsoluteName" curorigin: arg1 == zp.origin [C06]
+//@   callsite "parse" rdorigin: arg1 == zp.origin && arg0 == zp.c [C06]
 //@   stored at "zp.parseErr = " errfile: value != nil && value.file == zp.file [C07]
 
 // $GENERATE: the range is checked before the generator is built, the generator stops at the end of the
